@@ -28,6 +28,18 @@ class Any(object):
     """matches anything"""
 
 
+class Text(object):
+    """element text: equal up to surrounding whitespace; empty or blank text and no text at all are the same"""
+
+    def __init__(self, value):
+        self.value = value
+
+    def matches(self, got):
+        a = (self.value or '').strip()
+        b = (got or '').strip() if isinstance(got, str) or got is None else None
+        return b is not None and a == b
+
+
 class Subset(object):
     """an association list of which every listed key must be present with a matching value"""
 
@@ -262,10 +274,10 @@ def effect_pattern(E):
 def asset_pattern(A):
     if A is None:
         return Any
-    P = {'contributors': [{k: c.get(k) for k in ['author', 'authoring_tool', 'comments', 'copyright', 'source_data']}
+    P = {'contributors': [{k: (c.get(k) or None) for k in ['author', 'authoring_tool', 'comments', 'copyright', 'source_data']}
                           for c in A['contributors']]}
     for k in ['keywords', 'revision', 'subject', 'title']:
-        P[k] = A[k]
+        P[k] = A[k] or None
 
     def dt(s):
         # the instant as written: year .. second (zone designator and fraction do not change these fields)
@@ -415,7 +427,7 @@ def bound_pattern(scene, D):
 
 def expected(D):
     P = {'errors': [], 'asset': asset_pattern(D['asset'])}
-    P['images'] = [{'id': i['id'], 'path': i['path']} for i in D['images']]
+    P['images'] = [{'id': i['id'], 'path': Text(i['path'])} for i in D['images']]
     P['effects'] = [effect_pattern(e) for e in D['effects']]
     P['materials'] = [{'id': m['id'], 'name': m['name'], 'effect': {'id': m['effect'], 'same': True}} for m in D['materials']]
     P['animations'] = [animation_pattern(a) for a in D['animations']]
@@ -435,6 +447,10 @@ def compare(pat, got, path='', out=None, limit=8):
     if out is None:
         out = []
     if len(out) >= limit or pat is Any:
+        return out
+    if isinstance(pat, Text):
+        if not pat.matches(got):
+            out.append((path, pat.value, got))
         return out
     if isinstance(pat, Subset):
         have = {}
